@@ -427,18 +427,20 @@ class Nodes:
         wrapped_value = value
         ast_value = Nodes.typed_value(value)
         typ = type(ast_value)
+        # Wrap what the value was read as, which the value may merely spell
+        # ("[]", "{}", "0x10", and "false" are text)
         if typ is list:
-            wrapped_value = CommentedSeq(value)
+            wrapped_value = CommentedSeq(ast_value)
         elif typ is dict:
-            wrapped_value = CommentedMap(value)
+            wrapped_value = CommentedMap(ast_value)
         elif typ is str:
             wrapped_value = PlainScalarString(value)
         elif typ is int:
-            wrapped_value = ScalarInt(value)
+            wrapped_value = ScalarInt(ast_value)
         elif typ is float:
             wrapped_value = Nodes.make_float_node(ast_value)
         elif typ is bool:
-            wrapped_value = ScalarBoolean(bool(value))
+            wrapped_value = ScalarBoolean(ast_value)
         elif typ is date:
             wrapped_value = AnchoredDate(
                 value.year, value.month, value.day)
